@@ -26,3 +26,10 @@ Definition C12_cancelled_entry := @ab_cancelled_entry.
 Check @ab_cancelled_entry.
 
 Definition C12_nonvacuous := toy_search_spec.
+
+(** * For the real board model *)
+From Morlock.Lemmas Require Import SearchBoardInst1 SearchBoardInst SearchBoardInst5.
+Definition C12_board_halt_restores := @board_halt_restores.
+Check @board_halt_restores.
+Print Assumptions board_halt_restores.
+Definition C12_board_nonvacuous := kr_cancelled.
